@@ -9,8 +9,12 @@ AllDefs(files) == LET RECURSIVE A(_) A(k) == IF k = 0 THEN <<>> ELSE A(k-1) \o f
 SameMultiset(a, b) == /\ Len(a) = Len(b)
                       /\ \A x \in ToSet(a) \cup ToSet(b) :
                             Cardinality({k \in 1..Len(a) : a[k] = x}) = Cardinality({k \in 1..Len(b) : b[k] = x})
+\* helper definitions a backend adds (Swift's CodableVoid, written to the shared Codable.swift in folder mode): the folder run defines
+\* the helpers the single-file run defines
+HelpersOk(e) == ("helpers_single" \in DOMAIN e) => ToSet(e.helpers_single) = ToSet(e.helpers_folder)
 Ok(e) == /\ PartitionOk(e.files, e.expected)
          /\ SameMultiset(AllDefs(e.files), e.single_defs)
+         /\ HelpersOk(e)
          /\ (e.lang \in {"typescript", "kotlin"} => ImportsOk(e.files, e.designated))
 Init == i = 1 /\ bad = <<>>
 Next == /\ i <= Len(Rec)
